@@ -59,6 +59,7 @@ def run_product(ctx):
             "unknown_calls": sorted(set(pm.it.unknown_calls)),
             "anchors": sorted(pm.anchors_seen),
             "initial_position_ok": getattr(pm, "initial_position_ok", False),
+            "coverage": sorted(set("%s|%d" % (ctx.P.inst[i]["path"], bb) for i, bb in pm.it.cov)),
         })
     tmp = cp + ".tmp%d" % os.getpid()
     with open(tmp, "w") as f:
